@@ -239,7 +239,8 @@ package shard
 // write-cache or the blobstor (a crash in between leaves an unlisted blob, never a listed
 // object without data). deleteObjs: cached copies of the given ids are dropped first, the
 // blob of an id is deleted only after the metabase removed that id, and every id the metabase
-// reports as removed gets its blobstor deletion attempted, whatever happened in the cache.
+// reports as removed gets its blobstor deletion attempted (whatever happened to the cached
+// copies of the further ids - children - the metabase added to the list).
 
 //@ ghost pred dataStored() bool
 //@ ghost pred metaRemoved() bool
